@@ -41,7 +41,7 @@ def presetReadable (p : Preset) : Bool :=
 
 /-- The composition shared by the three stream classes: C03 (`herr`, `hspec`), the first row of the
     output (`hhead`), C06, C04 and C07. -/
-private theorem roundtrip_core (o : SerOptions) (cls : StreamClass) (s : Stream) (d : SerData)
+theorem roundtrip_core (o : SerOptions) (cls : StreamClass) (s : Stream) (d : SerData)
     (evs : List Event) (hs : Stream.new cls o = .ok s) (hp : presetReadable o.preset = true)
     (herr : (streamFrames s d).err = none)
     (hspec : ∃ st, Spec.runRows (streamFrames s d).allRows' = (st, evs, none))
